@@ -60,6 +60,13 @@ def eval_config(ctx, cfg, with_model=True):
     out = os.path.join(str(ctx.work), "c17.h5")
     if os.path.exists(out):
         os.remove(out)
+    if dev.terminals and not cfg.get("long"):
+        # history: the same device object has just been used for a driven run with the terminals pinned (psi = 0
+        # there); nothing of that run may survive into the quiet, unpinned one
+        names = [t.name for t in dev.terminals]
+        tdgl.solve(dev, runs.options(solve_time=0.02, dt_init=5e-3, adaptive=False, save_every=100, terminal_psi=0.0), applied_vector_potential=0.3,
+                   terminal_currents={names[0]: 1.0, names[1]: -1.0})
+        ctx.count("quiet_runs_after_a_pinned_run_on_the_same_device")
     o = dict(dt_init=1e-3, dt_max=cfg.get("dt_max", 0.1), adaptive=cfg["adaptive"], adaptive_window=3, terminal_psi=None, include_screening=cfg["screening"], screening_tolerance=1e-3)
     nsteps = 12
     T = cfg.get("T") or ((1e-3 * nsteps) if not cfg["adaptive"] else 0.6)
